@@ -47,6 +47,8 @@ def build(o, i, seed, domain):
     if k == "npscalar":
         return np.dtype(o["dtype"]).type(o["val"])
     arr = make_values(tuple(o["shape"]), o["dtype"], seed * 11 + i, domain)
+    if "val" in o:
+        arr = np.full(tuple(o["shape"]), o["val"], dtype=o["dtype"])
     if o.get("layout") == "F" and arr.ndim >= 2:
         arr = np.asfortranarray(arr)
     if o.get("layout") == "strided" and arr.ndim >= 1:
@@ -65,6 +67,8 @@ def build(o, i, seed, domain):
 
 def bits(a):
     a = np.asarray(a)
+    if a.dtype.kind == "f":
+        a = a + a.dtype.type(0)      # -0.0 and +0.0 are the same value
     return [np.ascontiguousarray(a).tobytes().hex(), str(a.dtype), list(a.shape)]
 
 
@@ -105,7 +109,7 @@ def signature(fn_call, task, spelling):
         r = r[0]
     else:
         sig["is_tensor"] = isinstance(r, mg.Tensor)
-        sig["value"] = bits(r.data if isinstance(r, mg.Tensor) else r)
+        sig["value"] = bits(r.data if isinstance(r, mg.Tensor) else r) if r is not None else None
         sig["const"] = bool(r.constant) if isinstance(r, mg.Tensor) else None
     if "out" in extra:
         tgt = extra["out"]
@@ -255,9 +259,22 @@ def nodiff(task):
     return res
 
 
+def spellings_ufunc_method(task):
+    """numpy.<ufunc>.<method>(tensors) / mygrad.<ufunc>.<method>(tensors) / NumPy on the underlying arrays"""
+    fn, meth = task["fn"], task["method"]
+    margs = [fix(a) for a in task.get("margs", [])]
+    kw = opt_kw(task)
+    unwrap = lambda ops: [o.data if isinstance(o, mg.Tensor) else o for o in ops]
+    return {"mg": lambda ops, ex: getattr(getattr(mg, fn), meth)(*ops, *margs, **kw),
+            "np": lambda ops, ex: getattr(getattr(np, fn), meth)(*ops, *margs, **kw),
+            "numpy_on_arrays": lambda ops, ex: getattr(getattr(np, fn), meth)(*unwrap(ops), *margs, **kw)}
+
+
 def run_task(task):
     if task["family"] == "nodiff":
         return nodiff(task)
+    if task["family"] == "ufunc_method":
+        return {"spellings": {name: signature(call, task, name) for name, call in spellings_ufunc_method(task).items()}}
     sp = spellings_ufunc(task) if task["family"] == "ufunc" else spellings_func(task)
     return {"spellings": {name: signature(call, task, name) for name, call in sp.items()}}
 
